@@ -11,7 +11,6 @@ import (
 	"context"
 	"encoding/json"
 	"fmt"
-	"strings"
 )
 
 // VerifSetRequestID sets the request-id counter of a client: the next request carries id n+1.
@@ -117,12 +116,11 @@ func VerifPendingSlot(srv interface{}, id int64) (exists bool, filled bool) {
 	switch s := srv.(type) {
 	case *Server:
 		rm := s.httpHandler.responseManager
-		want := fmt.Sprintf("%d", id)
 		rm.mutex.RLock()
-		for k, c := range rm.pendingRequests {
-			// the key is the rendered id today; tolerate a session-qualified key ("<session>:<id>" and the like)
-			if k == want || strings.HasSuffix(k, ":"+want) || strings.HasSuffix(k, "/"+want) || strings.HasSuffix(k, "|"+want) {
-				ch, exists = c, true
+		for _, k := range []string{requestIDKey(id), fmt.Sprintf("%v", id)} { // today's key; the key of a tree without the id helper
+			if p, ok := rm.pendingRequests[k]; ok {
+				ch, exists = p.responseChan, true
+				break
 			}
 		}
 		rm.mutex.RUnlock()
@@ -130,8 +128,8 @@ func VerifPendingSlot(srv interface{}, id int64) (exists bool, filled bool) {
 		s.responsesMu.RLock()
 		v, ok := s.responses[uint64(id)]
 		s.responsesMu.RUnlock()
-		if ok {
-			ch, exists = v.(chan *json.RawMessage)
+		if p, isPending := v.(*ssePendingRequest); ok && isPending {
+			ch, exists = p.responseChan, true
 		}
 	case *StdioServer:
 		s.responsesMu.RLock()
@@ -143,3 +141,6 @@ func VerifPendingSlot(srv interface{}, id int64) (exists bool, filled bool) {
 	}
 	return exists, exists && len(ch) > 0
 }
+
+// VerifRequestIDKey re-exports requestIDKey, the key under which pending requests are registered and looked up.
+func VerifRequestIDKey(id interface{}) string { return requestIDKey(id) }
